@@ -34,6 +34,16 @@ m["check_run"] = {
     "violation_lines": len([l for l in open(out)] if os.path.exists(out) else []),
     "first_violations": viol[:4],
 }
+if caught == "auto":
+    if viol:
+        subs = []
+        for v in viol:
+            t = "%s — clause %s%s" % (v["subject"], v["clause"], (" (" + v["class"] + ")") if v["class"] else "")
+            if t not in subs:
+                subs.append(t)
+        caught = "%s quick: " % prop + "; ".join(subs[:3]) + (" …" if len(subs) > 3 else "")
+    else:
+        caught = "NOT CAUGHT by %s quick" % prop
 m["caught_by"] = caught
 if note:
     m["strengthening"] = note
